@@ -464,7 +464,8 @@ type schan struct {
 	buf      []value
 	closed   bool
 	id       int
-	offers   []*offer // parked senders (scheduler mode)
+	offers   []*offer   // parked senders, plain or registered by a parked select (scheduler mode)
+	waiters  []*rwaiter // parked receivers, plain or registered by a parked select (scheduler mode)
 }
 
 func (i *interpreter) makeChan(n int) *schan {
